@@ -74,9 +74,9 @@ type injCase struct {
 	Scopes int      `json:"scopes"` // 1..3, scope 0 outermost, the last one is the nearest
 	Regs   []injReg `json:"registrations"`
 	Later  []injReg `json:"later_registrations,omitempty"` // applied after the first invocation; then the handler is invoked again
-	Params []string `json:"params"`          // parameter types of the handler
-	Fast   string   `json:"fast,omitempty"`  // name of a hand-written FastInvoker wrapper with exactly these parameters
-	Apply  bool     `json:"apply,omitempty"` // Apply to a struct with tagged fields instead of Invoke
+	Params []string `json:"params"`                        // parameter types of the handler
+	Fast   string   `json:"fast,omitempty"`                // name of a hand-written FastInvoker wrapper with exactly these parameters
+	Apply  bool     `json:"apply,omitempty"`               // Apply to a struct with tagged fields instead of Invoke
 }
 
 type injReg struct {
